@@ -15,7 +15,7 @@ RULE = ('random DFAs, NFAs, regexps, grammars, PDAs (incl. a closure limit small
 RULE += ' Added after the seeded rounds: sibling objects (same rules / transitions, another start variable / initial state / accepting set) operated on first in every second process; chain DFAs of 5-9 states; PDAs already in push/pop form with one accepting state; grammar utilities (productive variables, removal of unproductive variables / rules A -> A, cfg_to_nfa) with their models (informational).'
 CODES = {9: 'generated object invalid (harness)', 10: 'dfa_accepts_word differs from the model value', 11: 'dfa_words_up_to_n differs from the model value', 12: 'a minimiser result is not language-equivalent',
          13: 'dfa_to_regexp result not language-equivalent', 30: 'nfa_accepts_word differs from the model value', 31: 'nfa_words_up_to_n differs from the model value', 32: 'nfa_to_dfa result not language-equivalent',
-         33: 'nfa_repetition result not language-equivalent to the model', 99: 'a value that must not depend on PYTHONHASHSEED or on earlier calls differs between two fresh processes (different hash seed; in every second process the same operation is first applied to a sibling object)'}
+         33: 'nfa_repetition result not language-equivalent to the model', 54: 'check_dfa_language_from_words rejected the automaton\'s own language after other checker calls in the same process', 99: 'a value that must not depend on PYTHONHASHSEED or on earlier calls differs between two fresh processes (different hash seed; in every second process the same operation is first applied to a sibling object)'}
 for c in (20, 40, 50):
     CODES[c] = 'an operation modified its argument'
     CODES[c + 1] = 'calling the operation a second time gave a different result'
@@ -76,7 +76,7 @@ def gen(rng, tier):
         # already in push/pop format with exactly one accepting state (no normalisation step copies the argument)
         p = G.random_pda(rng, rng.randint(2, 3), rng.choice(['a', 'ab']), 'xy', rng.choice(['_', 'ε']), ntrans=rng.randint(2, 6), kinds=['push', 'pop'])
         p['delta'] = [t for t in p['delta'] if not (t[1] == p['eps'] and t[4] != p['eps'])]
-        p['F'] = [rng.choice(p['Q'])]
+        p['F'] = rng.choice([[rng.choice(p['Q'])], [rng.choice(p['Q'])], [], list(p['Q'])])
         cases.append({'kind': 'pda', 'X': p, 'limit': 1000})
     # truncated closures (known finding F17 before its repair): a pushing epsilon loop next to an accepting epsilon chain
     eps = '_'
@@ -110,6 +110,12 @@ def _history():
     dfa_minimize(D)
     dfa_hopfcroft(D)
     regexp_to_nfa(parse_simple_regexp('a(b+a)*'))
+    # checker calls that end in an error message (a later call must not inherit anything from them)
+    from gambatools.notebook import check_dfa_language_from_words, check_regexp_language_from_words
+    from implutil import captured_stdout
+    with captured_stdout():
+        check_dfa_language_from_words('initial u\nfinal u\nu u a', 'b ab', 2, 1)
+        check_regexp_language_from_words('a*', 'b', 2)
 
 
 def _cfgwords(g, n=2):
@@ -191,6 +197,14 @@ def observe(c):
                 check_dfa_minimal(text, A.print_dfa(A.dfa_quotient(D)), 3)
             return b.getvalue().strip().split('\n')[0]
         probe('check_dfa_minimal', chk, ident, snap)
+        from gambatools.notebook import check_dfa_language_from_words
+        wl = ' '.join(w or 'ε' for w in sorted(A.dfa_words_up_to_n(D, 3)))
+
+        def chk2():
+            with captured_stdout() as b:
+                check_dfa_language_from_words(text, wl, 3, 0)
+            return b.getvalue().strip().split('\n')[0]
+        probe('check_dfa_language_from_words', chk2, ident, snap)
     elif k == 'nfa':
         import gambatools.nfa_algorithms as A
         N = conv.nfa_obj(x)
@@ -265,6 +279,8 @@ def observe(c):
                 for f in (A.pda_to_push_pop, A.pda_to_accept_on_empty_stack):
                     probe(f.__name__, lambda f=f: f(P), lambda q: sorted(A.pda_words_up_to_n(q, 2)), snap)
                 probe('pda_to_cfg', lambda: A.pda_to_cfg(P), lambda g: sorted(_cfgwords(g)), snap, on=lambda p: A.pda_to_cfg(p))
+                if len(x['Q']) <= 3:
+                    probe('pda_to_cfg_empty_stack', lambda: A.pda_to_cfg(P, True), lambda g: len(g.R), snap)
                 probe('print_pda', lambda: A.print_pda(P), ident, snap, stable=False)
         finally:
             GambaTools.pda_epsilon_closure_max_iterations = old
@@ -290,6 +306,15 @@ def _flags(o):
 
 
 def encode(c, o):
+    t = _encode1(c, o)
+    # a checker that is given the automaton's own language must say OK, whatever was checked before in the same process
+    own = [v for name, v in o['values'] if name == 'check_dfa_language_from_words']
+    if own and own[0] != 'OK':
+        t = 'worst_code [%s; 54]' % t
+    return t
+
+
+def _encode1(c, o):
     k = c['kind']
     x = c['X']
     e = o['extra']
